@@ -26,6 +26,12 @@ def replay(ctx, path):
     import json
     rep = json.load(open(path))
     if 'script' in rep: return hc.replay(ctx, path)
+    if 'golden_vector' in rep:
+        cfg = rep.get('config', 'default'); vf.build_harness(ctx, (cfg,))
+        line = [l for l in open(f"{vf.ROOT}/{rep['file']}").read().split('\n') if l][rep['golden_vector']]
+        out, _ = vf.run_lines(vf.harness_bin('golden', cfg), [line], args=['check'], timeout=600)
+        print(out[0] if out else 'no answer')
+        return 0 if out and out[0].startswith('OK') else 1
     # header round-trip findings are deterministic in their inputs: re-run that campaign
     import demcheck
     vf.build_harness(ctx)
